@@ -546,3 +546,31 @@ def topfree_volume(bits, keep=14, variant="default"):
     pokes = ["poke %d %s" % (g.fat_off + k * fb, bytes(buf).hex()) for k in range(g.fats)]
     head = ["dev %d 0" % (ts * 512), "wlog 0", fmt] + pokes + ["pages", "wlog 1", "mount 1 0 lossy"]
     return ("fat%d-max-topfree" % bits, head, 512, keep)
+
+
+def fat32_high_cluster_session(rng):
+    """FAT32 with more than 65536 clusters and the next-free hint of the information sector beyond cluster 0xFFFF: first
+    clusters of new files and directories need the high word of the entry; truncation to nothing, re-allocation after the hint
+    has wrapped to low clusters and moves of directories between high- and low-cluster parents have to clear / rewrite it"""
+    size = 100200 * 512
+    fmt = "format 512 100200 512 32 - 2 - - -"
+    hint = rng.choice([65535, 65536, 65537, 66000, 70001])
+    head = [dev_line(rng, size), "wlog 0", fmt, "poke %d %s" % (512 + 492, hint.to_bytes(4, "little").hex()), "pages", "wlog 1", "mount 1 0 lossy"]
+    h = hexs
+    lines = ["create_file 0 %s 1" % h("high.bin"), "write_pat 1 %d 3" % rng.range(600, 2500), "flush 1", "extents 1",
+             "seek 1 start 0", "truncate 1", "flush 1", "extents 1", "list 0",
+             "write_pat 1 %d 4" % rng.range(1, 1500), "flush 1", "extents 1", "drop_file 1",
+             "create_dir 0 %s 2" % h("High Dir"), "create_file 2 %s 3" % h("inner file.txt"), "write_pat 3 700 5", "drop_file 3",
+             "create_dir 2 %s 4" % h("sub of high"), "drop_dir 4", "list 2", "drop_dir 2",
+             "drop_all", "unmount",
+             # second session: the hint is put back to the start, new objects get low clusters; the old ones move around
+             "poke %d %s" % (512 + 492, (3).to_bytes(4, "little").hex()), "mount 1 0 lossy",
+             "create_dir 0 %s 5" % h("low dir"), "drop_dir 5",
+             "rename 0 %s 0 %s" % (h("High Dir/sub of high"), h("low dir/moved sub")),
+             "rename 0 %s 0 %s" % (h("low dir"), h("High Dir/low inside high")),
+             "open_file 0 %s 6" % h("high.bin"), "seek 6 start 0", "truncate 6", "write_pat 6 900 6", "flush 6", "extents 6", "drop_file 6",
+             "open_file 0 %s 7" % h("High Dir/inner file.txt"), "seek 7 start 0", "truncate 7", "drop_file 7",
+             "list 0", "drop_all", "unmount", "mount 1 0 lossy", "list 0",
+             "open_file 0 %s 8" % h("high.bin"), "read_all 8 5000", "extents 8", "drop_file 8",
+             "open_dir 0 %s 9" % h("High Dir/low inside high/moved sub"), "list 9", "drop_all", "unmount"]
+    return head + lines
